@@ -23,6 +23,18 @@ Correspondence (model = lean/IrVerif/Model/SymExpr.lean, driver commands sym.*):
     (thorough: 4) over a 24-character alphabet covering every character class the tokenizer distinguishes, through the
     real tokenizer / parser and the model's classification-parametric tokenizer (CPython's str predicates are supplied
     per character by the harness: external tables).
+  * dimensions constructed from user SymPy expressions whose symbols carry OTHER assumptions than the parser's integer + positive
+    (SympyDimCase: plain / integer-only / positive-only / real / nonnegative symbols, leaf-wise through the overloads, as one whole
+    SymPy expression, mixed with text-built dimensions, two SymPy symbols of one name): `evaluate` (complete / partial) and
+    `Shape.evaluate` vs `Dim.evaluate` of the flavour-erased program - model and library bind by NAME;
+  * zero-valued subexpressions (x - x, x % 1, 0 * x, x % x, x // x - 1, x // (x + 1), min(0, x), ...) alone and inside further
+    arithmetic: an intermediate SymPy reduces to Integer(0) - a falsy object - is the dimension "0".
+Guards: every case runs under a CPU-time alarm of its worker (ITIMER_VIRTUAL; plus a generous wall alarm for calls that block); the
+call into the real code that is in flight is marked (`_mark`), and a call that does not finish becomes a failing input
+`nontermination:<channel>:<shape>` - attributed to SymPy (`sympy-upstream:nontermination:...`) only when SymPy alone, on the standard
+reading of the same input, does not finish either.  After `max_timeouts` such inputs the remaining generated cases are skipped, the
+pool has a wall limit (`_pmap_guarded`, for calls no handler can interrupt), an exception nobody expected while a case runs is a
+correspondence disagreement with a replayable case - a changed implementation never crashes or hangs the check.
 Oracle (independent of the Lean model): exact `fractions.Fraction` arithmetic over the tree, Python's
 own `ast` grammar for the meaning of a string, an Earley recogniser over the documented grammar
 for accept/reject.  A wrong VALUE is attributed to SymPy (known finding, signature sympy-upstream:...)
@@ -35,6 +47,7 @@ import ast
 import itertools
 import json
 import math
+import os
 import re
 from fractions import Fraction
 
@@ -65,7 +78,11 @@ ASSUMPTIONS = [
     "SymPy (construction, automatic simplification, str, subs, simplify, floor/Mod/Max arithmetic) is external: "
     "that it preserves evaluation is tested by the correspondence, not proved; where SymPy alone returns a wrong value "
     "(reproduced without repo code) the case is reported as known finding D162 instead of a violation",
-    "bindings are positive integers (symbols are created with positive=True, integer=True)",
+    "bindings are positive integers (the parser creates symbols with positive=True, integer=True; symbols a user supplies as SymPy objects may carry "
+    "any assumptions: they are bound by name all the same - family sympy-built; what SymPy's auto-simplification does under weaker assumptions "
+    "is external and tested like the rest of SymPy)",
+    "termination: a call into the real code that does not finish within the CPU guard (15 s quick / 40 s thorough per case; the slowest case of "
+    "the unchanged tree needs 1-4 s) is reported as a failing input (nontermination:*), not proved about",
     "the theorems about text are about ASCII text; non-ASCII text goes through the same tokenizer transcribed over a character "
     "classification supplied by CPython's str.isspace/isdigit/isalpha/isalnum/isidentifier and int() (external tables; "
     "C16_tokenize_classes: with the ASCII classification it is the proved tokenizer); int() digit limit (4300 digits) and "
@@ -266,6 +283,30 @@ def fr(x):
 
 _NUM_RE = re.compile(r"-?\d+(/\d+)?")
 
+# The call into the real code (or into SymPy on behalf of the real code) that is in flight: (channel, text, detail).  Set by the
+# wrappers below right before the call and cleared when it returns; when the CPU guard of `_run_chunk` fires, what is still
+# marked is the call that did not terminate (None = the harness's own oracle / blame computation was running).
+_CALL = [None]
+# limits of the guards; `run` / `replay` adjust them before the workers fork
+_LIM = {"case_cpu": 15.0, "finish_cpu": 40.0, "case_wall": 150.0, "run_wall": 300.0, "max_timeouts": 24,
+        "timeouts": None, "t_end": None, "progress": None}
+
+
+def _mark(channel, text=None, detail=None):
+    _CALL[0] = (channel, text, detail)
+
+
+def _unmark():
+    _CALL[0] = None
+
+
+def _val(d):
+    """text of a real dimension for a report; never raises"""
+    try:
+        return d._value
+    except Exception:  # noqa: BLE001
+        return None
+
 
 def canon_real(r):
     """evaluate() result -> [num, den] | None (not a finite rational) | ('symbolic', text)"""
@@ -291,14 +332,17 @@ def canon_real(r):
 def real_eval(d, env):
     """-> canonical value; 'zerodiv' / 'raised:<type>' when the real code raises (only legitimate
     where the exact value is undefined, e.g. SymPy refuses Max(nan, ...))"""
+    _mark("evaluate", _val(d), env)
     try:
-        return canon_real(d.evaluate(env))
+        r = canon_real(d.evaluate(env))
     except ZeroDivisionError:
-        return "zerodiv"
+        r = "zerodiv"
     except (CaseTimeout, MemoryError, RecursionError):
         raise
     except Exception as e:  # noqa: BLE001
-        return "raised:" + type(e).__name__
+        r = "raised:" + type(e).__name__
+    _unmark()
+    return r
 
 
 _EVAL_CACHE: dict = {}
@@ -328,13 +372,15 @@ INFRA_EXC = (CaseTimeout, MemoryError, RecursionError, SkipCase)
 def attempt(fn):
     """('ok', value) | ('exc', 'zerodiv' | 'raised:<type>') for a call into the real code"""
     try:
-        return ("ok", fn())
+        r = ("ok", fn())
     except INFRA_EXC:
         raise
     except ZeroDivisionError:
-        return ("exc", "zerodiv")
+        r = ("exc", "zerodiv")
     except Exception as e:  # noqa: BLE001
-        return ("exc", "raised:" + type(e).__name__)
+        r = ("exc", "raised:" + type(e).__name__)
+    _unmark()
+    return r
 
 
 def txt(x) -> str:
@@ -349,6 +395,10 @@ def build(t):
     if tag == "n":
         return t[1]
     if tag == "s":
+        if len(t) > 2 and t[2] != "text":
+            # a dimension constructed from a user SymPy expression (documented constructor input): a symbol of that
+            # name with OTHER assumptions than the parser's integer + positive
+            return ir.SymbolicDim(flavored_symbol(t[1], t[2]))
         return ir.SymbolicDim(t[1])
     if tag == "u":
         a = build(t[2])
@@ -380,6 +430,70 @@ def build(t):
         # SymbolicDim(text) followed by arithmetic: max/min exist only in the text form
         return ir.SymbolicDim(f"{op}({txt(a)}, {txt(b)})")
     raise AssertionError(op)
+
+
+# SymPy identifies a symbol by name AND assumptions; the library identifies a dimension symbol by its NAME (evaluate, free_symbols,
+# the text).  Leaf ("s", name, flavor): the symbol as a user may hand it to SymbolicDim(<SymPy expression>).
+FLAVORS = {
+    "text": {"integer": True, "positive": True},  # SymbolicDim(name): the symbol the parser creates
+    "plain": {},
+    "int": {"integer": True},
+    "pos": {"positive": True},
+    "real": {"real": True},
+    "nonneg": {"integer": True, "nonnegative": True},
+    "intpos": {"integer": True, "positive": True},  # the parser's own symbol, but supplied as a SymPy object
+}
+
+
+def flavored_symbol(name, flavor):
+    import sympy
+
+    return sympy.Symbol(name, **FLAVORS[flavor])
+
+
+def strip_flavors(t):
+    """the tree with plain ("s", name) leaves: what the by-NAME model sees"""
+    if t[0] == "s":
+        return ("s", t[1])
+    if t[0] == "u":
+        return ("u", t[1], strip_flavors(t[2]))
+    if t[0] == "b":
+        return ("b", t[1], strip_flavors(t[2]), strip_flavors(t[3]))
+    return t
+
+
+def leaf_flavors(t, acc=None):
+    acc = [] if acc is None else acc
+    if t[0] == "s":
+        acc.append(t[2] if len(t) > 2 else "text")
+    elif t[0] in "ub":
+        for x in t[2:]:
+            leaf_flavors(x, acc)
+    return acc
+
+
+def build_flavored(t, mode):
+    """A dimension from user SymPy objects.  mode 'leaf': every symbol leaf is SymbolicDim(<Symbol with the leaf's assumptions>) (or
+    SymbolicDim(name) for flavor 'text') and the operators are the real overloads; 'whole': SymbolicDim(<the SymPy expression of the
+    whole tree>); 'mixed': the root's left operand is built whole, its right operand leaf by leaf, the root is the real overload."""
+    import onnx_ir as ir
+    import sympy
+
+    def whole(x):
+        if x[0] == "n":
+            return x[1]
+        return ir.SymbolicDim(sympy.sympify(sympy_ref_of_tree(x)))
+
+    if mode == "leaf":
+        return build(t)
+    if mode == "whole" or t[0] != "b" or t[1] in ("max", "min"):
+        return whole(t)
+    a, b = whole(t[2]), build(t[3])
+    if isinstance(a, int) and isinstance(b, int):
+        return whole(t)
+    import operator
+
+    return getattr(operator, PYOP[t[1]])(a, b)
 
 
 PYOP = {"add": "add", "sub": "sub", "mul": "mul", "div": "truediv", "fdiv": "floordiv", "mod": "mod"}
@@ -489,6 +603,15 @@ def real_parse_outcome(s: str):
     the text was being parsed (ZeroDivisionError for `x % 0`, ValueError for Max(nan, ...))"""
     import onnx_ir as ir
 
+    _mark("parse", s)
+    r = _real_parse_outcome(s)  # an INFRA_EXC (the CPU guard) leaves the mark in place
+    _unmark()
+    return r
+
+
+def _real_parse_outcome(s):
+    import onnx_ir as ir
+
     try:
         d = ir.SymbolicDim(s)
         d.free_symbols()  # forces the lazy parse
@@ -543,13 +666,16 @@ def real_parse_structure(s: str):
     import sympy
     from onnx_ir._symbolic_shapes import parse_symbolic_expression
 
+    _mark("parse-unevaluated", s)
     try:
         with sympy.evaluate(False):
-            return struct_sig(parse_symbolic_expression(s))
+            r = struct_sig(parse_symbolic_expression(s))
     except INFRA_EXC:
         raise
     except Exception as e:  # noqa: BLE001
-        return "raised:" + type(e).__name__
+        r = "raised:" + type(e).__name__
+    _unmark()
+    return r
 
 
 def model_structure(tree):
@@ -863,7 +989,7 @@ def sympy_ref_of_tree(t):
     if tag == "n":
         return sympy.Integer(t[1])
     if tag == "s":
-        return sympy.Symbol(t[1], integer=True, positive=True)
+        return sympy.Symbol(t[1], **FLAVORS[t[2] if len(t) > 2 else "text"])
     if tag == "inf":
         return sympy.Max() if t[1] else sympy.Min()
     if tag == "u":
@@ -1176,6 +1302,88 @@ def all_trees(depth: int, syms, consts, unops=UN, binops=BIN):
     return [x[0] for lvl in by_depth for x in lvl if x[1]]
 
 
+def zero_trees():
+    """[(tree, alone)]: expressions with a zero-valued subexpression.  The forms: cancel to the constant 0 inside SymPy (x - x, x % 1 for an
+    integer x, 0 * x, x * 0, x % x, x // x - 1, (x + M) - (M + x), 2*x - (x + x), -(x - x)), or are 0 under every positive binding
+    without SymPy knowing (x // (x + 1), floor(x / (x + 1)), min(0, x)); each alone and as an operand of further arithmetic."""
+    N, M = ("s", "N"), ("s", "M")
+    n = lambda k: ("n", k)
+    b = lambda op, x, y: ("b", op, x, y)
+    xs = [N, b("add", N, n(1)), b("mul", n(2), M), b("add", N, M), b("fdiv", N, n(2)), b("div", N, n(2))]
+    out = []
+    for x in xs:
+        zeros = [
+            b("sub", x, x), b("mod", x, n(1)), b("mul", n(0), x), b("mul", x, n(0)), b("mod", x, x), b("sub", b("fdiv", x, x), n(1)),
+            b("sub", b("add", x, M), b("add", M, x)), b("sub", b("mul", n(2), x), b("add", x, x)), ("u", "neg", b("sub", x, x)),
+            b("fdiv", x, b("add", x, n(1))), ("u", "floor", b("div", x, b("add", x, n(1)))), b("min", n(0), x),
+        ]
+        for z in zeros:
+            out.append((z, True))
+            for y in (M, b("add", N, n(1))):
+                for ctxt in (b("add", z, y), b("add", y, z), b("sub", z, y), b("sub", y, z), b("add", b("mul", z, y), y), b("add", b("mul", y, z), n(7)),
+                             b("fdiv", y, b("add", z, n(1))), b("mod", b("add", y, z), n(3)), b("max", z, y), b("div", y, b("add", z, n(2))),
+                             b("add", ("u", "neg", z), y), b("add", ("u", "floor", z), y)):
+                    out.append((ctxt, False))
+    return out
+
+
+def sympy_built_items(rng, nrandom: int):
+    """items of SympyDimCase: the examples of the documentation / of users (sympy.Symbol("N") + 1, sympy.symbols("H W", integer=True)), every
+    depth-1 tree per assumption set, random trees with a flavour per leaf"""
+    envs = [{"N": 7, "M": 2}, {"N": 3, "M": 5}, {"N": 1, "M": 1}]
+    splits = [({"N": 7}, {"M": 2}), ({"M": 5}, {"N": 3})]
+    items = []
+    S = lambda name, fl: ("s", name, fl)
+    n = lambda k: ("n", k)
+    b = lambda op, x, y: ("b", op, x, y)
+    fixed = [
+        (b("add", S("N", "plain"), n(1)), "whole"), (b("add", S("N", "plain"), n(1)), "leaf"), (S("N", "plain"), "whole"), (S("N", "int"), "leaf"),
+        (b("mul", S("N", "int"), S("M", "int")), "whole"),  # sympy.symbols("H W", integer=True)
+        (b("add", b("mul", S("N", "plain"), S("N", "text")), S("M", "text")), "leaf"),  # Symbol("N") * "N" + "M"
+        (b("mod", b("sub", S("N", "plain"), S("M", "text")), n(3)), "leaf"), (("u", "ceil", b("div", S("M", "text"), S("N", "plain"))), "leaf"),
+        (b("fdiv", b("add", S("N", "real"), n(1)), n(2)), "mixed"), (b("sub", b("mul", n(2), S("N", "nonneg")), S("N", "text")), "mixed"),
+        (b("max", S("N", "plain"), b("mul", n(2), S("M", "pos"))), "whole"), (b("min", S("N", "int"), S("M", "text")), "whole"),
+        (b("add", S("N", "plain"), S("N", "int")), "leaf"), (b("sub", S("N", "pos"), S("N", "text")), "leaf"),  # one name, two SymPy symbols
+    ]
+    for t, mode in fixed:
+        items.append(dict(tree=t, mode=mode, envs=envs, splits=splits))
+    for fl in ("plain", "int", "pos", "real", "nonneg", "intpos"):
+        Nf = S("N", fl)
+        pairs = [(Nf, n(2)), (n(2), Nf), (Nf, S("M", "text")), (S("M", "text"), Nf), (Nf, S("M", fl)), (Nf, S("N", "text"))]
+        for x, y in pairs:
+            for op in BIN:
+                lattice = op in ("max", "min")
+                for mode in (("whole",) if lattice else ("leaf", "whole")):
+                    items.append(dict(tree=b(op, x, y), mode=mode, envs=envs, splits=splits))
+        for op in UN:
+            for mode in ("leaf", "whole"):
+                items.append(dict(tree=("u", op, b("div", Nf, n(2))), mode=mode, envs=envs, splits=splits))
+    flavors = ["text", "plain", "int", "pos", "real", "nonneg", "intpos"]
+
+    def flav(t):
+        if t[0] == "s":
+            return ("s", t[1], rng.choice(flavors))
+        if t[0] == "u":
+            return ("u", t[1], flav(t[2]))
+        if t[0] == "b":
+            return ("b", t[1], flav(t[2]), flav(t[3]))
+        return t
+
+    for i in range(nrandom):
+        mode = ("leaf", "whole", "mixed")[i % 3]
+        for _ in range(20):
+            t = gen_tree(rng, rng.choice([2, 2, 3, 3, 4]), rng.choice([1, 2, 2, 3]), [-3, -1, 0, 1, 2, 3, 6])
+            if mode == "whole" or not _has(t, _is_lattice):
+                break
+        else:
+            mode = "whole"
+        t = flav(t)
+        syms = tree_syms(t)
+        es = make_envs(rng, syms, 2) + [{s: 1 for s in syms}]
+        items.append(dict(tree=t, mode=mode, envs=es, splits=make_splits(rng, es[0], 2)))
+    return items
+
+
 IDENTS = ["N", "M", "K", "batch", "seq_len", "a.b", "_x", "x1", "dim_0", "decoder_input_ids.45_dim_1",
           "max", "floor", "Abs", "mod", "e3", "zoo", "oo", "I", "pi", "None", "lambda"]
 NUMS = ["0", "1", "2", "3", "7", "10", "007", "64", "12345678901234567890"]
@@ -1394,8 +1602,10 @@ class TreeCase:
             P.count("skipped=toobig")
             return
         self.build_state = "ok"
+        _mark("build", None, None)
         try:
             self.d = d = build(t)
+            _unmark()
         except INFRA_EXC:
             raise
         except TypeError as e:
@@ -1418,6 +1628,16 @@ class TreeCase:
         if self.d is None:
             return
         self.value = d.value
+        if self.value is None:
+            # no operand is the unknown dimension: the result of the overloads must be a dimension with a text
+            # (an intermediate that SymPy reduces to the constant 0 is the dimension "0", not SymbolicDim(None))
+            self.build_state = "unknown"
+            self.d = None
+            envs_defined = [e for e, r in zip(self.envs, self.ref) if r is not None]
+            P.fail("build:unknown-dimension:" + _shape_sig(t),
+                   f"the expression built with the operator overloads is the unknown dimension SymbolicDim(None) (no text, evaluate() is None) "
+                   f"although no operand is unknown; exact value under {envs_defined[:1]}: {[fr(r) for r in self.ref if r is not None][:1]}", self.case_obj)
+            return
         # memoised only in the small exhaustive scopes, where the same text is reached from many trees
         self.real_vals = [cached_eval(d, e) if self.light else real_eval(d, e) for e in self.envs]
         # oracle 1: complete bindings
@@ -1655,6 +1875,8 @@ class TreeCase:
         if st != "ok":
             P.disagree("model overload program does not produce a dimension", self.case_obj, ov, self.build_state)
             return
+        if self.build_state == "unknown":
+            P.disagree("operator overloads: the model builds a dimension, the real code the unknown dimension SymbolicDim(None)", self.case_obj, "ok", "unknown")
         if ov.get("vals") != lean_vals:
             P.disagree("model: tree built by the overloads evaluates differently from the operator tree", self.case_obj, ov.get("vals"), lean_vals)
         self.ov_vals = ov.get("vals")
@@ -2022,6 +2244,153 @@ class DerivCase:
         TreeCase._compare_parse(P, self.s, self.outcome, self.real_struct, lean, self.real_vals, self.envs)
 
 
+class SympyDimCase:
+    """A dimension constructed from a user SymPy expression (`SymbolicDim(sympy.Symbol("N") + 1)`,
+    `sympy.symbols("H W", integer=True)`: a documented constructor input) whose symbols carry OTHER assumptions than the
+    parser's integer + positive - alone and mixed with text-built dimensions through the real overloads.  SymPy tells
+    symbols apart by name AND assumptions; the library (evaluate, free_symbols, the text a saved model holds) and the
+    model (`Dim.evaluate`: an `Env` of NAMES) bind by NAME.  Oracle: exact Fraction arithmetic over the tree under complete
+    and partial bindings, the re-parsed text, Shape.evaluate; tie: `sym.dimeval` (int vs residual, values) on the
+    flavour-erased program."""
+
+    def __init__(self, tree, mode, envs, splits, src: str = "sympy-built"):
+        self.tree, self.mode, self.envs, self.splits, self.src = tree, mode, envs, [tuple(x) for x in splits], src
+        self.reqs = []
+
+    def prepare(self, P: Part):
+        import onnx_ir as ir
+
+        t, mode = self.tree, self.mode
+        self.case_obj = case = {"kind": "sympy-built", "tree": t, "mode": mode, "envs": self.envs, "splits": [list(x) for x in self.splits]}
+        self.rows = []
+        self.skip = False
+        self.fl = fl = "+".join(sorted(set(leaf_flavors(t))))
+        sigtail = f"{mode}:{fl}:{_shape_sig(t)}"
+        names = set(tree_syms(t))
+        try:
+            self.ref = ref = [ref_eval(t, e) for e in self.envs]
+        except TooBig:
+            self.skip = True
+            P.count("skipped=toobig")
+            raise SkipCase from None
+        defined = any(r is not None for r in ref)
+        P.case(["sympy-built", t, mode, [sorted(e.items()) for e in self.envs]], nontrivial=True, src=self.src,
+               sample={"tree": t, "mode": mode}, sympy_built_mode=mode, sympy_built_depth=tree_depth(t))
+        for f in set(leaf_flavors(t)):
+            P.count("sympy_built_symbol=" + f)
+        _mark("construct", None, None)
+        st, d = attempt(lambda: build_flavored(t, mode))
+        self.build_state = "ok" if st == "ok" else d
+        P.count("sympy_built_construct=" + str(self.build_state))
+        if st != "ok" or not isinstance(d, ir.SymbolicDim) or d.value is None:
+            self.d = None
+            if st == "ok":
+                self.build_state = "unknown" if isinstance(d, ir.SymbolicDim) else "not-a-dimension"
+            if defined:
+                P.fail(f"sympy-built:construct:{self.build_state}:{sigtail}", f"constructing the dimension from SymPy objects ({mode}, symbols {fl}) gives "
+                       f"{self.build_state} although the expression has the value {[fr(r) for r in ref if r is not None][:1]}", case)
+            return
+        self.d = d
+        self.value = d.value
+        # complete bindings (as b1 with nothing left), then the partial ones
+        for b1, b2 in [(e, {}) for e in self.envs] + list(self.splits):
+            full = dict(b1)
+            full.update(b2)
+            try:
+                want = ref_eval(t, full)
+            except TooBig:
+                continue
+            complete = names <= set(b1)
+            what = "complete" if complete else "partial"
+            r1kind = []
+
+            def _go():
+                _mark("evaluate", d.value, b1)
+                r1 = d.evaluate(b1)
+                _unmark()
+                if isinstance(r1, int) and not isinstance(r1, bool):
+                    r1kind.append(("int", r1))
+                    return [r1, 1], []
+                r1kind.append(("dim", r1.value))
+                return real_eval(r1, b2), sorted(r1.free_symbols())
+
+            st, res = attempt(_go)
+            got, free1 = res if st == "ok" else (res, [])
+            if want is not None and got != fr(want):
+                vfail(P, f"sympy-built:evaluate:{what}:{sigtail}", f"SymbolicDim({d.value!r}) built from SymPy objects ({mode}; symbols {fl}): evaluate({b1})"
+                      + (f" then evaluate({b2})" if b2 else "") + f" = {got} (first result {r1kind[:1]}), exact value {fr(want)}; free_symbols() = "
+                      f"{attempt(lambda: sorted(d.free_symbols()))[1]}", case, got, (t, b1, b2))
+            elif (want is not None and want.denominator == 1 and complete and st == "ok" and r1kind and r1kind[0][0] == "dim"
+                  and canon_text(r1kind[0][1]) == [want.numerator, 1]):
+                P.fail(f"sympy-built:evaluate:complete:not-an-int:{sigtail}", f"evaluate({b1}) binds every symbol and the exact value is {want.numerator}, but a "
+                       f"SymbolicDim({r1kind[0][1]!r}) is returned instead of an int", case)
+            if want is not None and st == "ok" and not set(free1) <= names - set(b1):
+                P.fail(f"sympy-built:residual-free-symbols:{sigtail}", f"evaluate({b1}) of SymbolicDim({d.value!r}) leaves the free symbols {free1}; "
+                       f"the names not bound are {sorted(names - set(b1))}", case)
+            self.rows.append((b1, b2, got, r1kind[0] if st == "ok" and r1kind else None))
+            self.reqs.append({"m": "sym.dimeval", "p": prog_of_tree(t), "b": envj(b1), "envs": [envj(b2)]})
+        st, free = attempt(lambda: set(d.free_symbols()))
+        if defined and (st != "ok" or not free <= names):
+            P.fail(f"sympy-built:free-symbols:{sigtail}", f"free_symbols() = {free if st != 'ok' else sorted(free)}, the tree's names {sorted(names)}", case)
+        # the text (what a saved model holds) parses back to the same evaluations
+        rp = real_parse_outcome(d.value)
+        if rp[0] == "ok":
+            for env, want in zip(self.envs, ref):
+                got = real_eval(rp[1], env)
+                if want is not None and got != fr(want):
+                    vfail(P, f"sympy-built:print-parse:value:{sigtail}", f"SymbolicDim({d.value!r}).evaluate({env}) = {got}, exact value {fr(want)}", case, got, (t, env), (py_tree(d.value), env))
+                    break
+        elif rp[0] == "sympy-assert":
+            assert_fail(P, "print-parse", d.value, case, "sympy-built:print-parse:rejected:AssertionError:" + sigtail)
+        elif defined:
+            P.fail(f"sympy-built:print-parse:{rp[0]}:{sigtail}", f"the text {d.value!r} of a dimension built from SymPy objects does not parse ({rp[1]})", case)
+        # Shape.evaluate lifts it dimension-wise
+        self._shape(P, sigtail)
+
+    def _shape(self, P: Part, sigtail):
+        import onnx_ir as ir
+
+        d, t = self.d, self.tree
+        fl0 = (leaf_flavors(t) or ["plain"])[0]
+        other = ir.SymbolicDim(flavored_symbol("K", fl0) + 1)
+        shp = ir.Shape([d, 7, "K", other, None])
+        for b in [self.envs[0]] + [x[0] for x in self.splits[:1]]:
+            b = dict(b, K=5)
+            try:
+                want0 = ref_eval(t, b) if set(tree_syms(t)) <= set(b) else None
+            except TooBig:
+                want0 = None
+            _mark("shape-evaluate", d.value, b)
+            st, ev = attempt(lambda: [canon_real(x) for x in shp.evaluate(b).dims])
+            if st != "ok":
+                if want0 is not None:
+                    P.fail(f"sympy-built:shape:raises:{sigtail}", f"Shape([{d.value!r}, 7, 'K', K + 1, None]).evaluate({b}) raises ({ev})", self.case_obj)
+                continue
+            P.count("sympy_built_shape=done")
+            want = [fr(want0) if want0 is not None else ev[0], [7, 1], [5, 1], [6, 1], ("symbolic", None)]
+            if ev != want:
+                P.fail(f"sympy-built:shape:evaluate:{sigtail}", f"Shape([{d.value!r}, 7, 'K', K + 1, None]).evaluate({b}) = {ev}, exact {want}", self.case_obj)
+
+    def finish(self, P: Part, outs):
+        t = self.tree
+        for (b1, b2, got, r1kind), de in zip(self.rows, outs):
+            if r1kind is None:
+                continue
+            case = {"b1": b1, "b2": b2, **self.case_obj}
+            st = de.get("status")
+            P.count("sympy_built_dimeval=" + str(st) + ",real=" + r1kind[0])
+            if st == "int":
+                if r1kind != ("int", de.get("z")):
+                    g = [r1kind[1], 1] if r1kind[0] == "int" else canon_text(r1kind[1])
+                    vdisagree(P, "evaluate() of a dimension built from SymPy objects: the by-name model returns an int, the real code something else", case, de.get("z"), list(r1kind), g, (t, b1))
+            elif st == "ok":
+                w = (de.get("vals") or [None])[0]
+                if w is not None and got != w:
+                    vdisagree(P, "evaluate() of a dimension built from SymPy objects: the residual's value differs from the by-name model's", case, w, got, got, (t, b1, b2))
+            else:
+                P.disagree("model evaluate() of a SymPy-built dimension is neither int nor dimension", case, de, list(r1kind))
+
+
 # --------------------------------------------------------------------------- the operator glue, as a matrix
 
 GLUE_ENVS = [{"N": 7, "M": 2}, {"N": 4, "M": 3}, {"N": 1, "M": 1}]
@@ -2055,6 +2424,13 @@ def glue_operand(kind):
 
 def glue_outcome(fn):
     """('ok', dim) | ('unknown',) | ('typeerror',) | ('valueerror',) | ('zerodiv',) | ('other', text)"""
+    _mark("operator", None)
+    r = _glue_outcome(fn)  # an INFRA_EXC (the CPU guard) leaves the mark in place
+    _unmark()
+    return r
+
+
+def _glue_outcome(fn):
     import onnx_ir as ir
 
     try:
@@ -2428,16 +2804,19 @@ class IdentNameCase:
 def real_tokens(s: str):
     from onnx_ir._symbolic_shapes import _ExpressionTokenizer
 
+    _mark("tokenize", s)
     tz = _ExpressionTokenizer(s)
     out = []
     try:
         while True:
             t = tz.get_token()
             if t is None:
-                return out
+                break
             out.append([t[0], t[1]])
     except ValueError:
-        return None
+        out = None
+    _unmark()
+    return out
 
 
 def _missing_op(t) -> str:
@@ -2462,6 +2841,8 @@ def _shape_sig(t) -> str:
 
 def _text_sig(s: str) -> str:
     """coarse shape of a text: function names and operator kinds present"""
+    if not isinstance(s, str):
+        return "<%s>" % type(s).__name__
     fns = sorted(set(re.findall(r"[A-Za-z_]+(?=\()", s)))
     ops = [o for o in ["**", "//", "%", "/", "*", "-", "+"] if o in s]
     return (",".join(fns) + "|" + "".join(ops))[:60]
@@ -2470,12 +2851,81 @@ def _text_sig(s: str) -> str:
 # --------------------------------------------------------------------------- workers
 
 
+_CASE_CLASSES = {}
+
+
+def _make_case(kind, it):
+    cls = {"tree": TreeCase, "deriv": DerivCase, "unknown": UnknownDimCase, "nonascii": NonAsciiCase, "glue": GlueCase,
+           "alphabet": AlphabetCase, "identname": IdentNameCase, "sympybuilt": SympyDimCase}.get(kind, StringCase)
+    return cls(**it)
+
+
+def _replay_obj(kind, it, c):
+    """a case object `replay` understands, for a case that did not get as far as building its own"""
+    obj = getattr(c, "case_obj", None)
+    if obj:
+        return obj
+    if kind == "tree":
+        return {"kind": "tree", "tree": it.get("tree"), "envs": it.get("envs"), "splits": it.get("splits")}
+    if kind == "sympybuilt":
+        return {"kind": "sympy-built", **{k: it.get(k) for k in ("tree", "mode", "envs", "splits")}}
+    if kind == "alphabet":
+        return {"kind": "alphabet", "s": (_CALL[0] or (None, None))[1] or (it.get("first") or [""])[0]}
+    return {"kind": kind, **{k: v for k, v in it.items() if k != "src"}}
+
+
+def _under_cpu_guard(seconds, fn):
+    """fn() under the worker's CPU-time alarm; -> ('ok', value) | ('timeout', None) | ('exc', type name)"""
+    import signal
+
+    try:
+        signal.setitimer(signal.ITIMER_VIRTUAL, seconds)
+        return ("ok", fn())
+    except CaseTimeout:
+        return ("timeout", None)
+    except (MemoryError, RecursionError, TooBig, SkipCase) as e:
+        return ("exc", type(e).__name__)
+    finally:
+        signal.setitimer(signal.ITIMER_VIRTUAL, 0)
+
+
+def _timeout_fail(P, kind, it, c, label, cpu_s, how="CPU"):
+    """A call into the real code did not finish under the guard: an input on which the implementation does not terminate
+    (in any useful time) - `nontermination:<channel>:<shape>`.  It is SymPy's own (`sympy-upstream:nontermination:...`, a
+    signature no known finding covers: still a violation, but attributed) only when SymPy ALONE, driven with the documented
+    operations on the standard reading of the same text / tree, does not finish under the same guard either."""
+    channel, text, detail = label
+    case = _replay_obj(kind, it, c)
+    tree = getattr(c, "tree", None)
+    try:
+        reading = py_tree(text) if isinstance(text, str) else tree
+    except Exception:  # noqa: BLE001
+        reading = None
+    if reading is None and channel in ("build", "construct", "evaluate", "simplify", "shape-evaluate"):
+        reading = tree
+    envs = [detail] if isinstance(detail, dict) else list(getattr(c, "envs", None) or [])[:2]
+    upstream = False
+    if reading is not None:
+        def _alone():
+            for e in envs or [{}]:
+                sympy_direct_value(reading, e, simplify=(channel == "simplify"))
+        upstream = _under_cpu_guard(cpu_s, _alone)[0] == "timeout"
+    shape = _text_sig(text) if isinstance(text, str) else (_shape_sig(tree) if tree is not None else kind)
+    sig = ("sympy-upstream:nontermination:" if upstream else "nontermination:") + f"{channel}:{shape}"
+    P.count("nontermination=" + ("sympy-alone-too:" if upstream else "") + channel)
+    P.fail(sig, f"{channel} did not finish within {cpu_s:g} s {how} time on text {text!r}" + (f" under {detail}" if isinstance(detail, dict) else "")
+           + (" [SymPy alone, on the standard reading of the same input, does not finish either]" if upstream
+              else " [SymPy alone, on the standard reading of the same input, finishes: the implementation made the input expensive]"), case)
+
+
 def _run_chunk(arg):
     import resource
     import signal
     import time
+    import traceback
 
-    kind, items = arg
+    kind, items = arg[0], arg[1]
+    chunk_id = arg[2] if len(arg) > 2 else None
     P = Part()
     cases = []
     try:
@@ -2487,41 +2937,78 @@ def _run_chunk(arg):
         raise CaseTimeout
 
     signal.signal(signal.SIGVTALRM, _alarm)  # CPU time of this worker, not wall time: independent of machine load
-    for it in items:
-        if kind == "tree":
-            c = TreeCase(**it)
-        elif kind == "deriv":
-            c = DerivCase(**it)
-        elif kind == "unknown":
-            c = UnknownDimCase(**it)
-        elif kind == "nonascii":
-            c = NonAsciiCase(**it)
-        elif kind == "glue":
-            c = GlueCase(**it)
-        elif kind == "alphabet":
-            c = AlphabetCase(**it)
-        elif kind == "identname":
-            c = IdentNameCase(**it)
-        else:
-            c = StringCase(**it)
+    signal.signal(signal.SIGALRM, _alarm)  # wall time, generous: a call that blocks without using CPU
+    shared, progress, t_end = _LIM["timeouts"], _LIM["progress"], _LIM["t_end"]
+
+    def _disarm():
+        signal.setitimer(signal.ITIMER_VIRTUAL, 0)
+        signal.setitimer(signal.ITIMER_REAL, 0)
+
+    def _note(i, phase):
+        # for the parent: which case this worker is in (see _pmap_guarded)
+        if progress is not None and chunk_id is not None:
+            k = 4 * chunk_id
+            progress[k], progress[k + 1], progress[k + 2], progress[k + 3] = i, os.getpid(), int(1000 * time.process_time()), phase
+
+    def _crashed(c, it, e, phase):
+        # never a crash of the check: an exception nobody expected while the real code was being exercised (a changed
+        # implementation returned something the harness has no clause for) is a disagreement with a replayable case
+        tb = traceback.extract_tb(e.__traceback__)
+        where = f"{os.path.basename(tb[-1].filename)}:{tb[-1].lineno} in {tb[-1].name}" if tb else "?"
+        P.count("unexpected_exception=" + type(e).__name__)
+        P.disagree(f"unexpected {type(e).__name__} while {phase} the case ({str(e)[:200]}; at {where})", _replay_obj(kind, it, c), None, type(e).__name__)
+
+    for i, it in enumerate(items):
+        c = _make_case(kind, it)
+        cases.append(c)
+        ntimeouts = shared.value if shared is not None else 0
+        if ntimeouts >= _LIM["max_timeouts"] and kind in ("tree", "string", "deriv", "sympybuilt"):
+            # enough non-terminating inputs are on record: do not spend the run's time on more of them
+            P.count("skipped=timeout-budget")
+            c.reqs, c.skip_all = [], True
+            continue
+        if t_end is not None and time.time() > t_end:
+            P.count("skipped=deadline")
+            c.reqs, c.skip_all = [], True
+            continue
+        cpu_s = _LIM["case_cpu"] if ntimeouts < 4 else max(3.0, _LIM["case_cpu"] / 4)
+        _note(i, 1)
+        _unmark()
         t0 = time.process_time()
         try:
-            signal.setitimer(signal.ITIMER_VIRTUAL, 30)
+            signal.setitimer(signal.ITIMER_REAL, _LIM["case_wall"])
+            signal.setitimer(signal.ITIMER_VIRTUAL, cpu_s)
             c.prepare(P)
-            signal.setitimer(signal.ITIMER_VIRTUAL, 0)
+            _disarm()
         except (RecursionError, MemoryError, CaseTimeout, SkipCase) as e:
-            signal.setitimer(signal.ITIMER_VIRTUAL, 0)
-            if not isinstance(e, SkipCase):
-                P.count("skipped=" + type(e).__name__)
+            _disarm()
+            label = _CALL[0]
+            _unmark()
             c.reqs = []
             c.skip_all = True
-        P.count("cpu_ms_real_code+oracle:" + it.get("src", kind), int(1000 * (time.process_time() - t0)))
-        cases.append(c)
-    signal.setitimer(signal.ITIMER_VIRTUAL, 0)
+            if isinstance(e, CaseTimeout) and label is not None:
+                if shared is not None:
+                    shared.value += 1  # a lost update under contention only delays the budget
+                how = "CPU" if time.process_time() - t0 >= 0.9 * cpu_s else "wall"
+                _timeout_fail(P, kind, it, c, label, cpu_s if how == "CPU" else _LIM["case_wall"], how)
+            elif not isinstance(e, SkipCase):
+                P.count("skipped=" + type(e).__name__)  # the harness's own oracle / blame computation, or memory / recursion
+                P.count("skipped_where=" + type(e).__name__ + ":" + it.get("src", kind) + ":" + str((label or ["oracle"])[0]))
+        except Exception as e:  # noqa: BLE001
+            _disarm()
+            _unmark()
+            c.reqs = []
+            c.skip_all = True
+            _crashed(c, it, e, "running the real code on")
+        dt = int(1000 * (time.process_time() - t0))
+        P.count("cpu_ms_real_code+oracle:" + it.get("src", kind), dt)
+        P["dist"]["cpu_ms_max_case"] = max(P["dist"].get("cpu_ms_max_case", 0), dt)
+    _disarm()
+    _note(len(items), 2)
     reqs = [r for c in cases for r in c.reqs]
     outs = _lean(reqs) if reqs else []
     k = 0
-    for c in cases:
+    for i, c in enumerate(cases):
         n = len(c.reqs)
         if getattr(c, "skip_all", False):
             continue
@@ -2531,16 +3018,106 @@ def _run_chunk(arg):
             if "err" in x:
                 P.disagree("model driver error", getattr(c, "case_obj", None), x, None)
         if n and all("err" not in x for x in o):
+            _note(i, 3)
             t0 = time.process_time()
             try:
-                signal.setitimer(signal.ITIMER_VIRTUAL, 60)
+                signal.setitimer(signal.ITIMER_VIRTUAL, _LIM["finish_cpu"])
                 c.finish(P, o)
             except (RecursionError, MemoryError, CaseTimeout) as e:
                 P.count("skipped_in_compare=" + type(e).__name__)
+            except Exception as e:  # noqa: BLE001
+                _disarm()
+                _crashed(c, items[i], e, "comparing model and real code on")
             finally:
                 signal.setitimer(signal.ITIMER_VIRTUAL, 0)
                 P.count("cpu_ms_compare:" + getattr(c, "src", kind), int(1000 * (time.process_time() - t0)))
+    _note(len(items), 4)
     return P
+
+
+def _pmap_guarded(ctx, chunks, wall_s, procs: int = 16):
+    """`pmap(_run_chunk, chunks)` that always comes back: the guards inside the workers turn a non-terminating call into a
+    failing input; this is the net under them for a call no signal handler can interrupt (a C loop, a blocked lock).  When
+    the wall limit of the whole run expires, the chunks that finished are merged, the workers are killed, and for every worker
+    still inside a case that has used more CPU than the in-process guard allows (or has been blocked for longer than its wall
+    guard) that case is a failing input `nontermination:uninterruptible:*`; a worker merely starved by an overloaded
+    machine is an infrastructure problem, not a verdict."""
+    import concurrent.futures as cf
+    import multiprocessing as mp
+    import time
+    from concurrent.futures.process import BrokenProcessPool
+
+    from harness.common import Infra
+
+    mpc = mp.get_context("fork")
+    _LIM["timeouts"] = mpc.RawValue("i", 0)
+    _LIM["progress"] = progress = mpc.RawArray("q", [-1, 0, 0, 0] * len(chunks))
+    _LIM["t_end"] = time.time() + 0.8 * wall_s  # workers stop starting new cases before the parent stops waiting
+    chunks = [(k, items, i) for i, (k, items) in enumerate(chunks)]
+    ex = cf.ProcessPoolExecutor(max(1, min(procs, len(chunks))), mp_context=mpc)  # also for one chunk: never the real code in this process
+    t0 = time.time()
+    parts, stuck, starved = [], [], 0
+    try:
+        futs = [ex.submit(_run_chunk, x) for x in chunks]
+        clk = os.sysconf("SC_CLK_TCK")
+
+        def inflight(i):
+            """(kind, item, CPU seconds into it) of the case the worker of chunk i cannot get out of, else None"""
+            idx, pid, cpu0, phase = progress[4 * i : 4 * i + 4]
+            if idx < 0 or phase != 1 or idx >= len(chunks[i][1]):
+                return None  # not started, waiting for the model driver, or comparing
+            try:
+                with open(f"/proc/{pid}/stat") as fh:
+                    fields = fh.read().rsplit(")", 1)[1].split()
+                used = (int(fields[11]) + int(fields[12])) / clk - cpu0 / 1000.0
+            except (OSError, ValueError, IndexError):
+                return None
+            # the in-process guard fires at case_cpu (+ as much again for the SymPy-alone reproduction)
+            return (chunks[i][0], chunks[i][1][idx], used) if used > 3 * _LIM["case_cpu"] + 5 else None
+
+        pending = set(range(len(futs)))
+        while pending and time.time() - t0 < wall_s:
+            cf.wait([futs[i] for i in pending], timeout=5)
+            pending = {i for i in pending if not futs[i].done()}
+            if pending and len(pending) <= procs and all(inflight(i) is not None for i in pending):
+                break  # everything else is done; these workers will never come back
+        for i, f in enumerate(futs):
+            if i not in pending:
+                parts.append(f.result())
+                continue
+            st = inflight(i)
+            if st is not None:
+                stuck.append(st)
+            else:
+                starved += 1
+    except BrokenProcessPool as e:
+        raise Infra(f"a worker process died abruptly (killed? out of memory?): {e}") from e
+    finally:
+        workers = list(getattr(ex, "_processes", {}).values())
+        ex.shutdown(wait=False, cancel_futures=True)
+        for w in workers:
+            try:
+                w.terminate()
+            except Exception:  # noqa: BLE001
+                pass
+        for w in workers:
+            try:
+                w.join(2)
+                if w.is_alive():
+                    w.kill()
+            except Exception:  # noqa: BLE001
+                pass
+    for kind, it, used in stuck:
+        ctx.count("nontermination=uninterruptible")
+        ctx.fail(f"nontermination:uninterruptible:{kind}:{_shape_sig(it['tree']) if 'tree' in it else _text_sig(it.get('s', ''))}",
+                 f"the worker was still inside this case, {used:.0f} s of CPU into it (in-process guard: {_LIM['case_cpu']:g} s), when every other chunk had finished "
+                 f"(or the pool's wall limit of {wall_s:g} s expired): a call into the real code that neither returns nor can be interrupted", _replay_obj(kind, it, None))
+    if starved:
+        ctx.count("chunks_unfinished_at_wall_limit", starved)
+        ctx.notes.append(f"{starved} of {len(chunks)} chunks had not finished when the wall limit of {wall_s:g} s expired")
+        ctx.extra["unfinished_chunks"] = starved
+    ctx.count("pool_wall_s", int(time.time() - t0))
+    return parts
 
 
 def _lean(reqs):
@@ -2592,10 +3169,10 @@ def run(ctx: Ctx) -> None:
         "a tree case = (expression tree, bindings); non-trivial when the tree has >= 1 operator; a string case = one "
         "text; non-trivial when it has > 1 non-blank character; distinct by canonical JSON of the case"
     )
-    tree_items, str_items = [], []
+    tree_items, str_items, corpus_other = [], [], []
     # ---- corpus first
     for obj in load_corpus("C16"):
-        _add_replay(obj, tree_items, str_items)
+        _add_replay(obj, tree_items, str_items, corpus_other)
     ncorpus = len(tree_items) + len(str_items)
     # ---- exhaustive small scope
     consts = [-2, 0, 1, 3]
@@ -2648,6 +3225,25 @@ def run(ctx: Ctx) -> None:
     ctx.exhaustive_scopes.append(
         f"{nedge} edge trees: every binary operator with each constant -1, 0, 1, 2, 3, 4 on either side of {len(operands)} "
         "fractional / negative / power-printing operands, every unary operator on them"
+    )
+    # ---- zero-valued subexpressions: intermediates that cancel to the constant 0 symbolically (x - x, x % 1, 0 * x, x % x, x // x - 1,
+    #      (x + M) - (M + x), 2*x - (x + x)) or only under every positive binding (x // (x + 1), floor(x / (x + 1)), min(0, x)),
+    #      alone and inside further arithmetic, through the real overloads, against exact arithmetic
+    ztrees = zero_trees()
+    zoff = ctx.seed % 3
+    zsel = [t for i, (t, alone) in enumerate(ztrees) if alone or not ctx.quick or i % 3 == zoff]
+    for i, t in enumerate(zsel):
+        tree_items.append(dict(tree=t, envs=edge_envs, splits=[({"N": 7}, {"M": 2}), ({"M": 5}, {"N": 3})], simplify=(i % 8 == 0), shape=(i % 4 == 0), src="zero", light=True))
+    ctx.exhaustive_scopes.append(
+        f"{len(zsel)} of {len(ztrees)} zero trees (quick: the zero-valued expressions alone + slice {zoff}/3 of the contexts): 12 zero-valued forms over 6 operands, "
+        "alone and in 12 arithmetic contexts with 2 other operands"
+    )
+    # ---- dimensions constructed from user SymPy expressions whose symbols carry other assumptions than the parser's
+    sb_items = [it for k, it in corpus_other if k == "sympybuilt"] + sympy_built_items(rng, ctx.pick(150, 1500))
+    ctx.exhaustive_scopes.append(
+        "dimensions built from SymPy objects: every depth-1 tree over a symbol N with each of 6 assumption sets (none, integer, positive, real, "
+        "integer+nonnegative, integer+positive) against 2, a text-built M, an equally flavoured M and the text-built N, leaf-wise and as a whole "
+        "SymPy expression (+ max / min as a whole expression), 3 complete and 2 partial bindings; plus random trees with a flavour per leaf"
     )
     nsimp = 0
     # ---- random deep trees
@@ -2751,13 +3347,20 @@ def run(ctx: Ctx) -> None:
     ctx.count("corpus_cases", ncorpus)
     rng.shuffle(tree_items)
     other_chunks = [(k, [it]) for k, it in other_items]
-    parts = pmap(_run_chunk, other_chunks + _chunks("tree", tree_items, 64 if ctx.quick else 512) + _chunks("string", str_items, 32 if ctx.quick else 128) + _chunks("deriv", deriv_items, 16 if ctx.quick else 64))
+    # guards (see _run_chunk / _pmap_guarded): CPU seconds per case (the slowest case of an unchanged tree needs 1 to 4, measured in CPU time and so
+    # independent of the machine's load) do the work; the wall limit of the whole pool (an unchanged tree needs about 30 s / 10 min on an idle
+    # machine) is only the net for calls that cannot be interrupted, generous because checks run side by side on a loaded machine
+    _LIM.update(case_cpu=15.0 if ctx.quick else 40.0, finish_cpu=40.0 if ctx.quick else 90.0, case_wall=150.0 if ctx.quick else 600.0,
+                run_wall=float(os.environ.get("IRVERIF_C16_WALL_S") or (900 if ctx.quick else 3 * 3600)), max_timeouts=24 if ctx.quick else 200)
+    parts = _pmap_guarded(ctx, other_chunks + _chunks("sympybuilt", sb_items, 16 if ctx.quick else 64) + _chunks("tree", tree_items, 64 if ctx.quick else 512)
+                          + _chunks("string", str_items, 32 if ctx.quick else 128) + _chunks("deriv", deriv_items, 16 if ctx.quick else 64), _LIM["run_wall"])
+    ctx.extra["cpu_ms_slowest_case"] = max([p["dist"].pop("cpu_ms_max_case", 0) for p in parts] or [0])
     for p in parts:
         ctx.merge(p)
-    _coverage_floors(ctx, len(tree_items), len(str_items) + len(deriv_items))
+    _coverage_floors(ctx, len(tree_items), len(str_items) + len(deriv_items), len(sb_items))
 
 
-def _coverage_floors(ctx: Ctx, ntrees: int, nstrings: int) -> None:
+def _coverage_floors(ctx: Ctx, ntrees: int, nstrings: int, nsympy: int = 0) -> None:
     """The run is only meaningful if the generated cases were actually exercised: exit 2 (infrastructure)
     when skipped / timed-out cases or thin clauses would make the evidence misleading."""
     from harness.common import Infra
@@ -2785,12 +3388,22 @@ def _coverage_floors(ctx: Ctx, ntrees: int, nstrings: int) -> None:
         ("Shape model compared", d.get("shape_model=compared", 0), base(400, 2300)),
         ("operator glue matrix rows", sum(v for k, v in d.items() if k.startswith("glue_outcome=")), 800),
         ("alphabet strings", sum(v for k, v in d.items() if k.startswith("alphabet_outcome=")), base(14000, 300000)),
+        ("dimensions built from SymPy objects evaluated", d.get("sympy_built_construct=ok", 0), int(0.95 * nsympy)),
+        ("SymPy-built dimensions vs the by-name model", sum(v for k, v in d.items() if k.startswith("sympy_built_dimeval=")), 4 * int(0.9 * nsympy)),
+        ("zero-valued subexpression trees", d.get("src=zero", 0), base(200, 600)),
     ]
     problems = [f"{name}: {got} < {need}" for name, got, need in floors if got < need]
     if skipped_infra > max(5, (ntrees + nstrings) // 200):
         problems.append(f"{skipped_infra} cases hit the CPU-time / memory / recursion limit")
     ctx.extra["coverage_floors"] = {name: {"got": got, "floor": need} for name, got, need in floors}
     ctx.extra["cases_over_resource_limit"] = skipped_infra
+    if ctx.extra.get("unfinished_chunks"):
+        problems.append(f"{ctx.extra['unfinished_chunks']} chunks unfinished at the wall limit (machine overloaded?)")
+    if problems and (ctx.failures or ctx.disagreements):
+        # failing inputs / disagreements are on record: they are the result of this run.  The floors guard a GREEN verdict against thin
+        # evidence; an implementation on which cases do not terminate (or do not build) cannot meet them
+        ctx.notes.append("coverage floors not met (reported with the failures found): " + "; ".join(problems))
+        return
     if problems:
         raise Infra("coverage floors not met: " + "; ".join(problems))
 
@@ -2810,7 +3423,10 @@ def _totuple(x):
 def _add_replay(obj, tree_items, str_items, other_items=None):
     case = obj.get("case", obj)
     other_items = [] if other_items is None else other_items
-    if case.get("kind") == "glue":
+    if case.get("kind") == "sympy-built":
+        envs = case.get("envs") or [{s: 3 for s in tree_syms(_totuple(case["tree"]))}]
+        other_items.append(("sympybuilt", dict(tree=_totuple(case["tree"]), mode=case.get("mode", "leaf"), envs=envs, splits=[tuple(x) for x in case.get("splits", [])], src="corpus")))
+    elif case.get("kind") == "glue":
         other_items.append(("glue", dict(what=case.get("what"), arg=case.get("arg") or case.get("op") if case.get("what") == "binop" else None)))
     elif case.get("kind") == "alphabet":
         other_items.append(("alphabet", dict(first=[case["s"]], length=1)))
@@ -2832,5 +3448,9 @@ def replay(ctx: Ctx, obj: dict) -> None:
     for d in obj.get("correspondence_disagreements", []):
         if isinstance(d.get("case"), dict):
             _add_replay(d["case"], tree_items, str_items, other_items)
-    for arg in _chunks("tree", tree_items, 1) + _chunks("string", str_items, 1) + [(k, [it]) for k, it in other_items]:
-        ctx.merge(_run_chunk(arg))
+    chunks = _chunks("tree", tree_items, 1) + _chunks("string", str_items, 1) + [(k, [it]) for k, it in other_items]
+    if not chunks:
+        return
+    for p in _pmap_guarded(ctx, chunks, 600.0, procs=4):
+        p["dist"].pop("cpu_ms_max_case", None)
+        ctx.merge(p)
